@@ -21,6 +21,13 @@ class Boom(Exception):
     pass
 
 
+class BoomBase(BaseException):
+    """A failure that is not an Exception subclass (like asyncio.CancelledError or GeneratorExit); Boom-compatible."""
+
+
+BOOMS = (Boom, BoomBase)
+
+
 class ev(Event):
     pass
 
@@ -65,6 +72,7 @@ def _ev_strategy(depth):
             'kind': st.sampled_from(['ret', 'ret', 'none', 'raise', 'gen', 'gen', 'genraise']),
             'val': TOKEN,
             'steps': st.lists(STEP, max_size=3),
+            'base': st.sampled_from([False, False, False, True]),
             'fire': children,
         })
 
@@ -146,7 +154,7 @@ class C04(Prop):
             @H('exception', channel='*')
             def _x(self, etype, evalue, tb, handler=None, fevent=None):
                 eid = fevent.args[0]['id'] if isinstance(fevent, ev) else None
-                log.append(('exception', eid, evalue.args[0] if isinstance(evalue, Boom) and evalue.args else repr(evalue)))
+                log.append(('exception', eid, evalue.args[0] if isinstance(evalue, BOOMS) and evalue.args else repr(evalue)))
 
             @H('ev_value_changed', channel='*')
             def _v(self, *a, **k):
@@ -161,7 +169,7 @@ class C04(Prop):
                     yield s
                 log.append(('end', es['id'], slot))
                 if h['kind'] == 'genraise':
-                    raise Boom((es['id'], slot))
+                    raise (BoomBase if h.get('base') else Boom)((es['id'], slot))
 
             @H('ev', priority=40 - 10 * slot)
             def f(self, event, es):
@@ -179,7 +187,7 @@ class C04(Prop):
                     return None
                 if k == 'raise':
                     log.append(('raise', es['id'], slot))
-                    raise Boom((es['id'], slot))
+                    raise (BoomBase if h.get('base') else Boom)((es['id'], slot))
                 return gen(self, es, h)
             f.__name__ = 'slot%d' % slot
             return f
@@ -265,7 +273,7 @@ class C04(Prop):
                     got = list(val)
                 norm = []
                 for g in got:
-                    if isinstance(g, tuple) and len(g) == 3 and isinstance(g[1], Boom):
+                    if isinstance(g, tuple) and len(g) == 3 and isinstance(g[1], BOOMS):
                         norm.append(('ERR', g[1].args[0][1]))
                     else:
                         norm.append(g)
@@ -299,6 +307,8 @@ class C04(Prop):
                 classes.append('raiser+generator')
             if 'genraise' in kinds:
                 classes.append('generator-raises')
+            if any(h.get('base') and h['kind'] in ('raise', 'genraise') for h in hs):
+                classes.append('raises-BaseException-subclass')
         if any(e['notify'] for e in especs.values()):
             classes.append('notify')
         if len(especs) > len(spec['events']):
